@@ -228,6 +228,7 @@ type Hint struct {
 	Props []string
 	Label string
 	Src   string
+	Try   bool // skip silently when the expression does not translate here
 }
 
 type LoopSpec struct {
